@@ -101,6 +101,8 @@ var subcommands = map[string]func(common){
 	"tbl-redirect": func(c common) { table(c, tbldrv.RedirectCase) },
 	"tbl-verifier": func(c common) { table(c, tbldrv.VerifierCase) },
 	"tbl-signature": func(c common) { table(c, tbldrv.SignatureCase) },
+	"tbl-assertion": func(c common) { table(c, tbldrv.AssertionCase) },
+	"tbl-reqobj": func(c common) { table(c, tbldrv.RequestObjectCase) },
 }
 
 func table(c common, f func(*tbldrv.Case) tbldrv.M) {
